@@ -438,6 +438,14 @@ def run_shard(spec):
                     if n == 2:
                         _run_string(res, ":".join(t))
             res.exhaustive_parts.append("all concatenations of 2 and 3 references drawn from %r" % (refs,))
+            # brackets inside brackets, beyond the length bound of the full alphabet: '$' followed
+            # by every string of up to 7 characters over { ( ) { } a B }
+            for L in range(1, 8):
+                for t in itertools.product("(){}aB", repeat=L):
+                    w = "".join(t)
+                    if w[0] in "({" and ("(" in w[1:] or "{" in w[1:]):
+                        _run_string(res, "$" + w)
+            res.exhaustive_parts.append("'$' + every string of length <= 7 over '(){}aB' that opens a bracket and holds another opening bracket")
             # size classes: the same short strings far inside a long one (>= 128, >= 4096 characters)
             for L in range(1, 5):
                 for t in itertools.product(ALPHABET, repeat=L):
